@@ -6,6 +6,9 @@ import (
 	"sync"
 
 	getty "github.com/apache/dubbo-getty"
+
+	"seata.apache.org/seata-go/pkg/protocol/codec"
+	"seata.apache.org/seata-go/pkg/protocol/message"
 )
 
 // VerifPendingFutures is the number of entries in the pending-future table.
@@ -55,3 +58,14 @@ func VerifSelectSession(msg interface{}) getty.Session {
 // VerifRegisterSession / VerifReleaseSession drive the registry directly.
 func VerifRegisterSession(s getty.Session) { sessionManager.registerSession(s) }
 func VerifReleaseSession(s getty.Session)  { sessionManager.releaseSession(s) }
+
+// VerifSendHeartbeat sends a heartbeat ping with the given message id on the session, the way OnCron does (OnCron draws the
+// id from the handler's own generator).
+func VerifSendHeartbeat(session getty.Session, id int32) error {
+	return GetGettyRemotingClient().gettyRemoting.SendAsync(message.RpcMessage{
+		ID:    id,
+		Type:  message.GettyRequestTypeHeartbeatRequest,
+		Codec: byte(codec.CodecTypeSeata),
+		Body:  message.HeartBeatMessagePing,
+	}, session, nil)
+}
